@@ -881,3 +881,37 @@ Example ex_absent_none :
      [Field (B "missing"); Idx 0; Field (B "x")];
      [Field (B "n"); Field (B "x")]] = [None; None; None; None; None; None].
 Proof. vm_compute. reflexivity. Qed.
+
+(* ------------------------------------------------------------------ histories *)
+
+Theorem history_sound h : dom_history h = true -> run_history h = spec_history h.
+Proof.
+  induction h as [| [[d p] raw] h IH]; intros Hd.
+  - reflexivity.
+  - simpl in Hd. apply andb_true_iff in Hd. destruct Hd as [H1 H2].
+    simpl. rewrite (path_sound d p raw H1), (IH H2). reflexivity.
+Qed.
+
+(* the outcome of a render is that of the same render alone, whatever was rendered before and after it *)
+Theorem history_independent h1 h2 d p raw :
+  nth_error (run_history (h1 ++ (d, p, raw) :: h2)) (length h1) = Some (run d p raw).
+Proof.
+  induction h1 as [| x h1 IH]; simpl.
+  - reflexivity.
+  - exact IH.
+Qed.
+
+(* non-vacuity: two look-alike structs (the same field names, the values at exchanged positions) and one more with
+   other names, each asked the same paths, in the domain; the same path prints a different leaf for each *)
+Definition ex_alike1 : gv := GMap [(B "d", GIface false (GStruct [(B "Sku", true, GStr (B "s1")); (B "Price", true, GInt 42)] [] []))].
+Definition ex_alike2 : gv := GMap [(B "d", GIface false (GStruct [(B "Price", true, GInt 7); (B "Sku", true, GStr (B "s2"))] [] []))].
+Definition ex_alike3 : gv := GMap [(B "d", GIface false (GStruct [(B "Title", true, GStr (B "t")); (B "Qty", true, GInt 3)] [] []))].
+Definition ex_history : list render_req :=
+  [(ex_alike1, [Field (B "d"); Field (B "sku")], false); (ex_alike2, [Field (B "d"); Field (B "sku")], false);
+   (ex_alike3, [Field (B "d"); Field (B "sku")], false); (ex_alike3, [Field (B "d"); Field (B "title")], false);
+   (ex_alike1, [Field (B "d"); Field (B "price")], true); (ex_alike1, [Field (B "d"); Field (B "title")], false)].
+Example ex_history_dom : dom_history ex_history = true.
+Proof. vm_compute. reflexivity. Qed.
+Example ex_history_run :
+  run_history ex_history = [ROk (B "s1"); ROk (B "s2"); ROk []; ROk (B "t"); ROk (B "42"); ROk []].
+Proof. vm_compute. reflexivity. Qed.
